@@ -309,6 +309,91 @@ func runC13(c *Ctx) {
 		}
 	}
 
+	// every resource an object took ownership of in a field is released by its Close: the fields are those an acquisition
+	// was stored into (E6), the release is Close/Destroy/close(2)/munmap on a load of that field, reached from the closer
+	{
+		ownedFields := map[*types.Var]string{}
+		for _, fn := range p.Funcs {
+			if fn.Parent() != nil || !o.inScope(fn) {
+				continue
+			}
+			for _, a := range o.acquisitionsIn(fn) {
+				h := o.holders(fn, a.res)
+				for _, fs := range h.fields {
+					for f := range fs {
+						ownedFields[f] = a.name + " in " + fnName(fn)
+					}
+				}
+			}
+		}
+		nOwned := 0
+		for _, cl := range []closer{{"sonic", "file", "Close"}, {"sonic", "AsyncAdapter", "Close"}, {"sonic", "listener", "Close"}, {"sonic", "packetConn", "Close"},
+			{"multicast", "UDPPeer", "Close"}, {"sonic", "Socket", "Close"}, {"internal", "poller", "Close"}, {"sonic", "Timer", "Close"}, {"internal", "Timer", "Close"}, {"internal", "EventFd", "Close"}, {"sonic", "IO", "Close"}, {"bytes", "MirroredBuffer", "Destroy"}} {
+			fn := p.TryMethod(cl.pkg, cl.typ, cl.method)
+			if fn == nil {
+				continue
+			}
+			st, ok := p.Named(cl.pkg, cl.typ).Underlying().(*types.Struct)
+			if !ok {
+				continue
+			}
+			for i := 0; i < st.NumFields(); i++ {
+				f := st.Field(i)
+				src, owned := ownedFields[f]
+				if !owned {
+					continue
+				}
+				// the handle itself (a descriptor number, a mapping, a sub-object or connection), not a struct that merely
+				// carries a copy of it (slot.Fd, the reactors)
+				switch ft := f.Type().Underlying().(type) {
+				case *types.Basic, *types.Slice, *types.Interface:
+				case *types.Pointer:
+					hasClose := false
+					if n, ok := ft.Elem().(*types.Named); ok {
+						for k := 0; k < n.NumMethods(); k++ {
+							if nm := n.Method(k).Name(); nm == "Close" || nm == "Destroy" {
+								hasClose = true
+							}
+						}
+					}
+					if !hasClose {
+						continue // a pointer to a plain struct that carries a copy (reactors holding the peer)
+					}
+				default:
+					continue
+				}
+				nOwned++
+				released := containsDeep(fn, func(in ssa.Instruction) bool {
+					call, ok := in.(ssa.CallInstruction)
+					if !ok {
+						return false
+					}
+					cc := call.Common()
+					name := ""
+					var args []ssa.Value
+					if cc.IsInvoke() {
+						name, args = cc.Method.Name(), []ssa.Value{cc.Value}
+					} else if callee := cc.StaticCallee(); callee != nil {
+						name, args = callee.Name(), cc.Args
+					}
+					if name != "Close" && name != "Destroy" && name != "Munmap" && name != "CloseNextLayer" {
+						return false
+					}
+					for _, a := range args {
+						if loadOfField(a, f) {
+							return true
+						}
+					}
+					return false
+				}, 3)
+				c.check(released, fn, "releases "+f.Name(), fn.Pos(), "the resource kept in "+f.Name()+" is released", cl.typ+"."+cl.method+" never releases the resource the object keeps in "+f.Name()+" ("+src+"): every object created leaks it")
+			}
+		}
+		if nOwned == 0 {
+			c.bad(p.Method("internal", "poller", "Close"), "releases", p.Method("internal", "poller", "Close").Pos(), "no owned resource field was found on any closer (anchor moved)")
+		}
+	}
+
 	// the websocket stream owns the connection it dialed: CloseNextLayer closes it whenever there is one
 	{
 		fn := p.Method("codec/websocket", "Stream", "CloseNextLayer")
